@@ -168,7 +168,10 @@ impl ParsedProgram {
       let data = self.const_blob[start .. start + len].to_vec();
 
       // get the type from the id
-      let ty = &self.types.entries[const_entry.type_id as usize];
+      let ty = match self.types.entries.get(const_entry.type_id as usize) {
+        Some(ty) => ty,
+        None => return Err(MechError::new(ConstantEntryOutOfBoundsError, None).with_compiler_loc()),
+      };
 
       let val: Value = match ty.tag {
         #[cfg(feature = "bool")]
@@ -513,7 +516,26 @@ pub fn load_program_from_bytes(bytes: &[u8]) -> MResult<ParsedProgram> {
   load_program_from_reader(&mut cur, total_len)
 }
 
+// A section [off, off+len) must lie inside the payload (everything before the CRC trailer).
+// Checked before any buffer is allocated from a length field read from the file.
+fn check_section_bounds(off: u64, len: u64, payload_len: u64, total_len: u64) -> MResult<()> {
+  match off.checked_add(len) {
+    Some(end) if end <= payload_len => Ok(()),
+    _ => Err(MechError::new(
+      FileTooShortError { total_len, expected_len: off.saturating_add(len).saturating_add(4) },
+      None
+    ).with_compiler_loc()),
+  }
+}
+
 fn load_program_from_reader<R: Read + Seek>(r: &mut R, total_len: u64) -> MResult<ParsedProgram> {
+  let payload_len = total_len.saturating_sub(4);
+  if (ByteCodeHeader::HEADER_SIZE as u64) > payload_len {
+    return Err(MechError::new(
+      FileTooShortError { total_len, expected_len: ByteCodeHeader::HEADER_SIZE as u64 + 4 },
+      None
+    ).with_compiler_loc());
+  }
   r.seek(SeekFrom::Start(0))?;
   let mut header_buf = vec![0u8; ByteCodeHeader::HEADER_SIZE];
   r.read_exact(&mut header_buf)?;
@@ -532,9 +554,10 @@ fn load_program_from_reader<R: Read + Seek>(r: &mut R, total_len: u64) -> MResul
 
   // 2. read features
   let mut features = Vec::new();
-  if header.feature_off != 0 && header.feature_off + 4 <= total_len.saturating_sub(4) {
+  if header.feature_off != 0 && header.feature_off.saturating_add(4) <= payload_len {
     r.seek(SeekFrom::Start(header.feature_off))?;
     let c = r.read_u32::<LittleEndian>()? as usize;
+    check_section_bounds(header.feature_off + 4, (c as u64).saturating_mul(8), payload_len, total_len)?;
     for _ in 0..c {
       let v = r.read_u64::<LittleEndian>()?;
       features.push(v);
@@ -543,7 +566,7 @@ fn load_program_from_reader<R: Read + Seek>(r: &mut R, total_len: u64) -> MResul
 
   // 3. read types
   let mut types = TypeSection::new();
-  if header.types_off != 0 && header.types_off + 4 <= total_len.saturating_sub(4) {
+  if header.types_off != 0 && header.types_off.saturating_add(4) <= payload_len {
     r.seek(SeekFrom::Start(header.types_off))?;
     let types_count = r.read_u32::<LittleEndian>()? as usize;
     for _ in 0..types_count {
@@ -551,6 +574,7 @@ fn load_program_from_reader<R: Read + Seek>(r: &mut R, total_len: u64) -> MResul
       let _reserved = r.read_u16::<LittleEndian>()?; // reserved, always 0
       let _version = r.read_u32::<LittleEndian>()?; // version, always 1
       let bytes_len = r.read_u32::<LittleEndian>()? as usize;
+      check_section_bounds(r.stream_position()?, bytes_len as u64, payload_len, total_len)?;
       let mut bytes = vec![0u8; bytes_len];
       r.read_exact(&mut bytes)?;
       if let Some(tag) = TypeTag::from_u16(tag) {
@@ -567,6 +591,8 @@ fn load_program_from_reader<R: Read + Seek>(r: &mut R, total_len: u64) -> MResul
   // 4. read const table
   let mut const_entries = Vec::new();
   if header.const_tbl_off != 0 && header.const_tbl_len > 0 {
+    check_section_bounds(header.const_tbl_off, header.const_tbl_len, payload_len, total_len)?;
+    check_section_bounds(0, (header.const_count as u64).saturating_mul(ConstEntry::byte_len()), header.const_tbl_len, total_len)?;
     r.seek(SeekFrom::Start(header.const_tbl_off))?;
     let mut tbl_bytes = vec![0u8; header.const_tbl_len as usize];
     r.read_exact(&mut tbl_bytes)?;
@@ -577,6 +603,7 @@ fn load_program_from_reader<R: Read + Seek>(r: &mut R, total_len: u64) -> MResul
   // read const blob
   let mut const_blob = vec![];
   if header.const_blob_off != 0 && header.const_blob_len > 0 {
+    check_section_bounds(header.const_blob_off, header.const_blob_len, payload_len, total_len)?;
     r.seek(SeekFrom::Start(header.const_blob_off))?;
     const_blob.resize(header.const_blob_len as usize, 0);
     r.read_exact(&mut const_blob)?;
@@ -586,11 +613,13 @@ fn load_program_from_reader<R: Read + Seek>(r: &mut R, total_len: u64) -> MResul
   let mut symbols = HashMap::new();
   let mut mutable_symbols = HashSet::new();
   if header.symbols_off != 0 && header.symbols_len > 0 {
+    check_section_bounds(header.symbols_off, header.symbols_len, payload_len, total_len)?;
     r.seek(SeekFrom::Start(header.symbols_off))?;
     let mut symbols_bytes = vec![0u8; header.symbols_len as usize];
     r.read_exact(&mut symbols_bytes)?;
     let mut cur = Cursor::new(&symbols_bytes[..]);
-    for _ in 0..(header.symbols_len / 12) {
+    // each entry is 13 bytes: u64 id, u8 mutable, u32 register (see SymbolEntry::write_to)
+    for _ in 0..(header.symbols_len / 13) {
       let id = cur.read_u64::<LittleEndian>()?;
       let mutable = cur.read_u8()? != 0;
       let reg = cur.read_u32::<LittleEndian>()?;
@@ -604,6 +633,7 @@ fn load_program_from_reader<R: Read + Seek>(r: &mut R, total_len: u64) -> MResul
   // 6. read instr bytes
   let mut instr_bytes = vec![];
   if header.instr_off != 0 && header.instr_len > 0 {
+    check_section_bounds(header.instr_off, header.instr_len, payload_len, total_len)?;
     r.seek(SeekFrom::Start(header.instr_off))?;
     instr_bytes.resize(header.instr_len as usize, 0);
     r.read_exact(&mut instr_bytes)?;
@@ -612,6 +642,7 @@ fn load_program_from_reader<R: Read + Seek>(r: &mut R, total_len: u64) -> MResul
   // 7. read dictionary
   let mut dictionary = HashMap::new();
   if header.dict_off != 0 && header.dict_len > 0 {
+    check_section_bounds(header.dict_off, header.dict_len, payload_len, total_len)?;
     r.seek(SeekFrom::Start(header.dict_off))?;
     let mut dict_bytes = vec![0u8; header.dict_len as usize];
     r.read_exact(&mut dict_bytes)?;
@@ -619,6 +650,7 @@ fn load_program_from_reader<R: Read + Seek>(r: &mut R, total_len: u64) -> MResul
     while cur.position() < dict_bytes.len() as u64 {
       let id = cur.read_u64::<LittleEndian>()?;
       let name_len = cur.read_u32::<LittleEndian>()? as usize;
+      check_section_bounds(cur.position(), name_len as u64, dict_bytes.len() as u64, total_len)?;
       let mut name_bytes = vec![0u8; name_len];
       cur.read_exact(&mut name_bytes)?;
       let name = String::from_utf8(name_bytes).map_err(|_| 
@@ -821,6 +853,10 @@ fn decode_instructions(mut cur: Cursor<&[u8]>) -> MResult<Vec<DecodedInstr>> {
         let fxn_id = cur.read_u64::<LittleEndian>()?;
         let dst = cur.read_u32::<LittleEndian>()?;
         let arg_count = cur.read_u32::<LittleEndian>()? as usize;
+        let remaining = cur.get_ref().len() as u64 - cur.position();
+        if (arg_count as u64).saturating_mul(4) > remaining {
+          return Err(MechError::new(TruncatedInstructionError, None).with_compiler_loc());
+        }
         let mut args = Vec::with_capacity(arg_count);
         for _ in 0..arg_count {
           let a = cur.read_u32::<LittleEndian>()?;
